@@ -41,6 +41,10 @@ def finish(d, resd):
         meta['false_alarms'] = det
         meta['detected_by'] = []
     meta['first_reports'] = {p: resd[p][1] for p in det + und}
+    if PROPS == ALL:
+        sys.path.insert(0, '/verif')
+        from osv.rules.game import _checker_digest
+        meta['checker_digest'] = _checker_digest()  # the self-test uses a meta as expectation only for this version of the checks
     json.dump(meta, open(mp, 'w'), indent=1)
     print(f"{os.path.basename(d)[:46]:46s} own={prop} {'DET' if prop in det else 'und' if prop in und else 'MISS'}  by={det} und={und}", flush=True)
 
